@@ -65,6 +65,11 @@ Definition midpoint_A (x : Vec) : Vec :=
 Definition midpoint_lhs (x : Vec) : Vec :=
   vadd (vadd (K (G midpoint_ev_ut x)) (C (G midpoint_ev_vt x))) (M (G midpoint_ev_at x)).
 
+(* the matrix assembled in _Solver_Apply_Dirichlet (generated midpoint_sysop) is this weighted sum *)
+Theorem midpoint_sysop_is_weighted_sum : forall x y i,
+  (G midpoint_sysop y) x i = midpoint_A x i.
+Proof. unfold midpoint_A; vf. Qed.
+
 (* row i of the system minus row i of the right-hand side of _Solver_Apply_Neumann
    = residual of the equation of motion at dof i *)
 Theorem midpoint_eom_identity : forall x i,
@@ -89,12 +94,27 @@ Proof.
   pose proof (midpoint_eom_identity (vadd y d) i). lra.
 Qed.
 
+(* the statement of the property in terms of what one step RETURNS: the new state (u,v,a)^{n+1} makes
+   K u_t + C v_t + M a_t equal the load at the documented evaluation points, on every solved (free) dof *)
+Theorem midpoint_step_correct : forall x i,
+  midpoint_A x i = G midpoint_rhs x i ->
+  K (mean (G midpoint_up_u x) u_n) i + C (mean (G midpoint_up_v x) v_n) i + M (mean (G midpoint_up_a x) a_n) i = bN i + F i.
+Proof using All.
+  intros x i H. pose proof (midpoint_discrete_eom x i H) as E. unfold midpoint_lhs, vadd in E.
+  assert (E1 : mean (G midpoint_up_u x) u_n = G midpoint_ev_ut x) by (extensionality j; symmetry; apply midpoint_eval_consistent).
+  assert (E2 : mean (G midpoint_up_v x) v_n = G midpoint_ev_vt x) by (extensionality j; symmetry; apply midpoint_eval_consistent).
+  assert (E3 : mean (G midpoint_up_a x) a_n = G midpoint_ev_at x) by (extensionality j; symmetry; apply midpoint_eval_consistent).
+  rewrite E1, E2, E3. lra.
+Qed.
+
 End S_midpoint.
 
 Print Assumptions midpoint_params_stored.
 Print Assumptions midpoint_update_rule.
 Print Assumptions midpoint_eval_consistent.
 Print Assumptions midpoint_coefs_are_derivatives.
+Print Assumptions midpoint_sysop_is_weighted_sum.
 Print Assumptions midpoint_eom_identity.
 Print Assumptions midpoint_discrete_eom.
 Print Assumptions midpoint_newton_consistent.
+Print Assumptions midpoint_step_correct.
